@@ -6,6 +6,10 @@ b. acyclicity guard: set_predecessors is dominated by the `index.has_id(new id)`
 c. MutableRepo.commit_predecessors is only inserted into (set_predecessors) and moved out (consume): never cleared
 d. Transaction::write stores Some(<predecessors returned by consume()>) in the operation
 e. the only other recorder (git import) goes through the same set_predecessors
+f. walking side, structural part: walk_predecessors visits the whole operation DAG above the repo's operation
+   (op_walk::walk_ancestors, not a first-parent chain), starts from exactly the given commits, looks predecessors up with
+   Operation::predecessors_for_commit, emits remaining commits when the operations are exhausted, reports a cycle as an
+   error from the topological sort instead of looping, and never drops a queued entry
 """
 from jjv.lib import (bodies_with, body_accesses, bool_edges, find_ok_nodes, name_matches, norm, place_has_field, show,
                      strip, term_calls, walk)
@@ -36,6 +40,7 @@ def run(ctx):
     rule_c(ctx)
     rule_d(ctx)
     rule_e(ctx)
+    rule_f(ctx)
 
 
 def rule_a2(ctx):
@@ -165,3 +170,70 @@ def rule_e(ctx):
                "predecessors recorded only for ids passing filter(imported_commit_ids.contains)" if ok else
                f"git import records predecessors for commits that may already have a history: {show(t)[:160]}",
                where=c.where())
+
+
+def rule_f(ctx):
+    F = ctx.F
+    EV = "jj_lib::evolution::"
+    wb = F.body(EV + "walk_predecessors")
+    if not ctx.anchor("C46.f", "walk_predecessors", [wb] if wb is not None else [], 1):
+        return
+    ctx.fn_seen(wb.id)
+    sl = F.slicer(wb.id)
+    agg = None
+    for i, blk in enumerate(wb.blocks):
+        if blk.get("c"):
+            continue
+        for st in blk["s"]:
+            rv = st["r"]
+            if rv["k"] == "agg" and str(rv.get("adt", "")).startswith(EV + "WalkPredecessors"):
+                agg = (i, rv)
+    if not ctx.anchor("C46.f", "WalkPredecessors state literal", [agg] if agg else [], 1):
+        return
+    i, rv = agg
+    fields = dict(zip(rv["fields"], rv["o"]))
+    t_ops = sl.operand(fields["op_ancestors"], at=i)
+    names = {x[1] for x in term_calls(t_ops)}
+    ok = "jj_lib::op_walk::walk_ancestors" in names and any(n.endswith("ReadonlyRepo::operation") for n in names) and \
+        not any(n.endswith("Operation::parents") for n in names)
+    ctx.ob("C46.f/walks-the-whole-operation-dag", wb.id, ok, "op_ancestors = op_walk::walk_ancestors([repo.operation()])" if ok else
+           f"the operations consulted are not all ancestors of the repo's operation: {show(t_ops)[:120]} - rewrites recorded by "
+           f"concurrent (merged) operations are missed")
+    t_vis = sl.operand(fields["to_visit"], at=i)
+    pn = {l[2] for l in __import__("jjv.lib", fromlist=["term_leaves"]).term_leaves(t_vis) if l[0] == "param"}
+    narrowing = {x[1].split("::")[-1] for x in term_calls(t_vis)
+                 if name_matches(x[1], "re:Iterator::(filter|take|skip|step_by|filter_map)$|slice.*::(first|last|split_first)$")}
+    ctx.ob("C46.f/starts-from-the-given-commits", wb.id, pn == {"start_commits"} and not narrowing,
+           "to_visit = start_commits.to_vec()" if pn == {"start_commits"} and not narrowing else
+           f"to_visit is built from {sorted(pn)} with {sorted(narrowing)}")
+    # try_next_impl: flush on exhaustion and on legacy operations; visit_op otherwise; pops only from queued
+    W = "re:^jj_lib::evolution::WalkPredecessors::<I>::"
+    tb = [b for b in F.family_bodies(EV + "WalkPredecessors::<I>::try_next_impl") if b.calls_to(W + "visit_op$")]
+    if ctx.anchor("C46.f", "try_next_impl body", tb, 1):
+        b = tb[0]
+        ctx.fn_seen(b.id)
+        fl = [c for c in b.calls_to(W + "flush_commits$") if c.decl != "futures::Future::poll"]
+        vo = [c for c in b.calls_to(W + "visit_op$") if c.decl != "futures::Future::poll"]
+        ctx.ob("C46.f/remaining-commits-flushed", b.id, len(fl) >= 2 and all(find_ok_nodes(F, b, c) for c in fl),
+               f"{len(fl)} ?-checked flush_commits sites (operations exhausted / legacy operation)" if len(fl) >= 2 else
+               "commits still to visit are not emitted when the operation history ends: the walk silently loses them")
+        ctx.ob("C46.f/visit-result-checked", b.id, bool(vo) and all(find_ok_nodes(F, b, c) for c in vo), "visit_op(..)?")
+    vb = [b for b in F.family_bodies(EV + "WalkPredecessors::<I>::visit_op") if b.calls_to("re:Operation::predecessors_for_commit$")]
+    if ctx.anchor("C46.f", "visit_op body", vb, 1):
+        b = vb[0]
+        ctx.fn_seen(b.id)
+        topo = b.calls_to("re:dag_walk::topo_order_reverse_ok$")
+        names = {c.res or c.decl or "" for c in b.calls if not c.cleanup}
+        cyc = any(r["variant"] == "CycleDetected" for r in F.q(
+            "SELECT variant FROM aggregate WHERE root=? AND adt=?", (b.root, EV + "WalkPredecessorsError")))
+        ctx.ob("C46.f/cycle-is-an-error", b.id, bool(topo) and cyc and all(find_ok_nodes(F, b, c) for c in topo),
+               "topo_order_reverse_ok(..).map_err(CycleDetected)?" if topo and cyc else
+               "multiple predecessors in one operation are no longer ordered by a cycle-detecting topological sort")
+    fb = [b for b in F.family_bodies(EV + "WalkPredecessors::<I>::flush_commits") if b.calls_to("re:VecDeque.*::push_back$")]
+    if ctx.anchor("C46.f", "flush_commits body", fb, 1):
+        b = fb[0]
+        ctx.fn_seen(b.id)
+        names = {(c.res or c.decl or "").split("::")[-1] for c in b.calls if not c.cleanup}
+        ok = "drain" in names and not ({"filter", "take", "skip", "truncate", "pop"} & names)
+        ctx.ob("C46.f/flush-emits-every-remaining-commit", b.id, ok, "for id in to_visit.drain(..) push_back" if ok else
+               f"flush_commits does not emit every commit left in to_visit ({sorted(names)[:8]})")
